@@ -99,7 +99,8 @@ def gen_run(n_clean: int, n_wild: int, forbidden: set, cfg=None, formats=FORMATS
     import gen
 
     g = gen.Gen(random.Random(seed() * 1000003 + rng_salt), cfg)
-    items = [{"stream": "extra", "ast": None, "src": s, "features": set()} for s in extra_programs]
+    # directed programs: a source text, or (source text, carve-out classes) when the text triggers a listed finding
+    items = [{"stream": "extra", "ast": None, "src": s if isinstance(s, str) else s[0], "features": set() if isinstance(s, str) else set(s[1])} for s in extra_programs]
     for _ in range(n_clean):
         a = g.clean_program(forbidden)
         items.append({"stream": "clean", "ast": a, "src": gen.prog_src(a), "features": gen.features(a)})
